@@ -727,3 +727,4 @@ def run(prog, R, tier):
     codecrules.r_pure(prog, R, "R-C03-PURE")
     codecrules.r_valid(prog, R, "R-C03-VALID")
     codecrules.r_rcode(prog, R, "R-C03-RCODE")
+    codecrules.r_optscan(prog, R, "R-C03-OPTSCAN")
